@@ -625,6 +625,17 @@ def byte_int(E, st, bv):
     return x
 
 
+def seq_nth(E, st, zs, j):
+    """the element term zs[j] (0 <= j < len assumed by the caller); extract(s0, a, l)[j] is written s0[a + j] when the path
+    condition puts the slice in bounds -- the same element, in the one shape every producer (subscripts, be(), le(), struct) uses"""
+    if z3.is_app(zs) and zs.decl().kind() == z3.Z3_OP_SEQ_EXTRACT:
+        s0, a, l = zs.arg(0), zs.arg(1), zs.arg(2)
+        jz = j if z3.is_expr(j) else z3.IntVal(j)
+        if E.implied(st, z3.And(a >= 0, l >= 0, a + l <= z3.Length(s0), jz >= 0, jz < l)):
+            return seq_nth(E, st, s0, z3.simplify(a + jz))
+    return zs[j]
+
+
 def reverse_value(E, st, zs):
     """s[::-1]: explicit for short constant lengths, otherwise uninterpreted with the ground facts that define reversal
     at this instance (length, involution, first/last element, big-endian value of the reverse == little-endian value)"""
@@ -870,13 +881,7 @@ def subscript(E, base, idx, st, sink):
                 j = i                                   # a non-negative index needs no normalisation (simpler term, same value)
             else:
                 j = z3.If(i < 0, i + n, i)
-            if z3.is_app(zs) and zs.decl().kind() == z3.Z3_OP_SEQ_EXTRACT:
-                # extract(s0, a, l)[j] == s0[a + j] when the slice is in bounds and 0 <= j < l
-                s0, a, l = zs.arg(0), zs.arg(1), zs.arg(2)
-                if E.implied(ok, z3.And(a >= 0, l >= 0, a + l <= z3.Length(s0), j >= 0, j < l)):
-                    yield ok, mk_int(byte_int(E, ok, s0[z3.simplify(a + j)]))
-                    return
-            yield ok, mk_int(byte_int(E, ok, zs[j]))
+            yield ok, mk_int(byte_int(E, ok, seq_nth(E, ok, zs, j)))
         return
     if base is None or is_intlike(base):
         sink.append(('raise', st, exc(TypeError, 'object is not subscriptable')))
